@@ -562,6 +562,110 @@ def rule_r9(facts, col):
                        "state written in the loop (%s): no per-call limit/discard of it after the loop" % ", ".join(sorted(grown)))
 
 
+BULK_COPIES = {"extend_from_slice", "extend", "to_vec", "copy_from_slice", "clone_from_slice", "collect", "append", "to_owned", "from"}
+
+
+def _container_ty(ty):
+    return "Vec<" in ty or "[" in ty or "VecDeque<" in ty
+
+
+def rule_r10(facts, col):
+    """carried state is built from consumed samples only: where work() consumes only part of its read window, no BULK copy of
+    the whole window (extend_from_slice(i), i.to_vec(), extend(i.iter().copied()) - anything not bounded by take(..) or a
+    sub-slice) flows into a container that is then stored into the block's state.  Such state depends on samples the call did
+    not consume: it changes with how much input happened to be waiting.  Per-sample loops that stop early are not bulk copies
+    and are not matched (they keep processed == consumed by construction)."""
+    from . import c09, c13
+    from ..mir import self_field_path
+    for body in facts.impl_bodies(BLOCK_TRAIT, "work"):
+        if body.from_derive:
+            continue
+        wins = {}
+        for cbb, ct in body.calls_to(effects.CONSUME):
+            w = c09.window_of(body.operand_expr(ct["args"][0]))
+            if w:
+                whole = c09.len_of_window(body.operand_expr(ct["args"][1])) == w
+                wins[w] = wins.get(w, True) and whole
+        partial = {w for w, whole in wins.items() if not whole}
+        if not partial:
+            continue
+
+        def unbounded_window_read(e, depth=0):
+            """e denotes the whole read window (slice()/iter()/deref chains), with no take()/sub-slice in between"""
+            p = peel(e)
+            n = 0
+            while p is not None and n < 10:
+                n += 1
+                if p.k == "call":
+                    nm = (p.q or "").split("::")[-1]
+                    if c09.window_of(p) in partial and nm in ("slice", "iter"):
+                        return c09.window_of(p)
+                    if nm in ("take", "skip", "step_by", "take_while", "filter", "index", "index_mut", "get", "split_at", "chunks_exact", "rev"):
+                        if nm in ("index", "index_mut") and len(p.args) == 2 and (peel(p.args[1], through_try=False).adt or "") == "std::ops::RangeFull":
+                            p = peel(p.args[0])
+                            continue
+                        return None
+                    if nm in ("copied", "cloned", "iter", "into_iter", "deref", "as_ref", "borrow", "map", "enumerate") and p.args:
+                        p = peel(p.args[0])
+                        continue
+                    return None
+                if p.k in ("ref", "deref"):
+                    p = peel(p.a)
+                    continue
+                return None
+            return None
+
+        flow = None
+        k = 0
+        for bb, t in body.calls():
+            if t["f"].get("name") not in BULK_COPIES or not t["args"]:
+                continue
+            srcs = [a for a in t["args"][(1 if len(t["args"]) > 1 else 0):] if unbounded_window_read(body.operand_expr(a))]
+            if not srcs:
+                continue
+            key = "%s:bulk-copy#%d" % (body.q, k)
+            k += 1
+            # destination container: the `&mut` receiver, or the call's result
+            dests = set()
+            if len(t["args"]) > 1:
+                q = t["args"][0].get("m") or t["args"][0].get("c")
+                if q is not None:
+                    dests.add(q["l"])
+            if t.get("dst") is not None and _container_ty(body.locals[t["dst"]["l"]]["ty"]):
+                dests.add(t["dst"]["l"])
+            if flow is None:
+                flow = c13._content_flow(body, _container_ty)
+            reach = set(dests)
+            work = list(dests)
+            while work:
+                x = work.pop()
+                for y in flow.get(x, ()):
+                    if y not in reach:
+                        reach.add(y)
+                        work.append(y)
+            hit = None
+            # the copy itself may go straight into self state
+            if len(t["args"]) > 1 and self_field_path(body.operand_expr(t["args"][0])):
+                hit = bb
+            for b2, t2 in body.calls():
+                if hit is not None or b2 == bb or not t2["args"] or t2["f"].get("name") not in BULK_COPIES:
+                    continue
+                recv = body.operand_expr(t2["args"][0])
+                if len(t2["args"]) > 1 and self_field_path(recv) is not None and any(
+                        (a.get("m") or a.get("c") or {}).get("l") in reach for a in t2["args"][1:]):
+                    hit = b2
+            if hit is not None:
+                col.bad("C08.R10", key, body.where(hit),
+                        "the whole read window is copied in bulk (%s) and that copy reaches the block's carried state here, although "
+                        "work() consumes only part of the window: the state now depends on samples that were not consumed, i.e. on how "
+                        "much input happened to be waiting (the next call sees them again, on top of a history that already contains "
+                        "them)" % body.where(bb), {})
+            else:
+                col.ok("C08.R10", key, body.where(bb), "bulk copy of the window does not reach carried state")
+        if k == 0:
+            col.ok("C08.R10", "%s:no-bulk-copy" % body.q, body.where(), "partial consume, but no unbounded bulk copy of the read window")
+
+
 def from_logging(t):
     sp = t.get("sp") or {}
     return any(x.startswith(("log::", "debug!", "trace!", "info!", "warn!", "error!", "format_args!", "eprintln!", "println!")) or "log" in x
@@ -585,6 +689,8 @@ def run(ctx):
     rule_r6(facts, ctx)
     rule_r8(facts, ctx)
     ctx.floor("C08.R8", 8, "fill_from_* sites of the crate's work() bodies")
+    rule_r10(facts, ctx)
+    ctx.floor("C08.R10", 10, "hand-written work() bodies that consume part of a window")
     rule_r9(facts, ctx)
     ctx.floor("C08.R9", 5, "per-sample loops of hand-written work() bodies that write carried state (8 today)")
     rule_r7(facts, ctx)
